@@ -85,6 +85,18 @@ CHECKS = {
         text="Per worker one sandbox with every creatable type (regular, directory, fifo, socket, char/block device), links to each, link chains, dangling links, hard-link groups 1-6, 64 (quick) / 4096 (thorough) permission values, 25 owner/group combinations; 22 starting points so that links of every kind occur at depth 0, 1 and deeper; ~2200 (quick) distinct (mode, test) pairs over -type/-xtype, -perm exact/-/ in octal, 0-octal and symbolic spellings of the same mode, -links/-inum/-uid/-gid N/+N/-N, -user/-group by name and number, -empty, -samefile, -lname/-ilname under -P/-H/-L: ~700k (entry, test, mode) evaluations, of which ~8k are ones where the link's and the target's record give different answers.",
         note="ELOOP links, X in symbolic modes, -nouser/-nogroup and symbolic links as -samefile reference are not judged; tmpfs; runs as root (mknod/chown).",
         ref="DESIGN.md section 4 C13"),
+    "C14": dict(
+        technique="runtime monitoring: oracle-free invariants (the three forms -N/N/+N partition the files; +N/-N monotone in N) plus integer-arithmetic oracle on os.lstat records, over labelled clause triples evaluated in-process with an injected clock",
+        level="exploration",
+        text="About 150 files per worker: sparse files of size 0,1,2 and k*u-1,k*u,k*u+1 for every unit and k in {1,2,3,1023,1024}, 2^32/2^33/2^40/2^62 (+-1), 2^63-1; hard-link groups; chown'ed files; files with injected ages around day/minute boundaries incl. the future. Operands around every file's rounded value for each of c,w,b,none,k,M,G, 0/1/2 and 2^31..2^64-1; -links/-inum/-uid/-gid; the six time tests (trichotomy and monotonicity, oracle for ages >= 0). Quick ~450 triples x ~150 files.",
+        note="N >= 2^64 not used; negative ages judged for trichotomy and monotonicity only.",
+        ref="DESIGN.md section 4 C14"),
+    "C15": dict(
+        technique="runtime monitoring: ns-resolution integer oracle on os.lstat records with the clock injected through Dependencies::now(); timestamps set with utimensat, ctime read back and `now` placed relative to it",
+        level="exploration",
+        text="Age runs: 8-20 files whose atime and mtime are set independently to now-(k*period+e) for period in {day, minute}, k in {0,1,2,3,5,30,400}, e in {0,+-1ns,+-1ms,+-1s,half}; in half of the runs now = ctime(file) + k*period + e; all six -Xtime/-Xmin tests with N,+N,-N around every value. Newer runs: reference files with three different timestamps; entries whose atime/mtime is Y(ref) -1ns/0/+1ns (+-1us, +-1s); a second reference placed within 1ns of an entry's ctime; all nine -newerXY, -newer, -anewer, -cnewer. Quick ~450k evaluations, ~250k on a period boundary, ~4k within 1ns of the reference.",
+        note="-daystart, -newerXt, birth time not judged; ages >= 0; in-process only (the binary cannot be given a clock).",
+        ref="DESIGN.md section 4 C15"),
     "C19": dict(
         technique="runtime monitoring: scripted recorder outcomes, exit status and number of invocations started vs the documented function; bounded-exhaustive over outcome classes",
         level="exploration",
